@@ -274,7 +274,9 @@ def anchors (c : Cst) (first : Option Tok) : List Nat × List Nat :=
     | .opt o => (l ++ [o.kw.idx] ++ o.decls.map (·.name.idx),
                  r ++ [o.rb.idx] ++ o.decls.map fun d => (match d.semi with | some s => s.idx | none => (d.value.toks.getLast?.getD d.eq).idx))
     | .metaD _ => (l, r)) ([], [])
-  ((match first with | some t => [t.idx] | none => []) ++ top.1, top.2)
+  -- `VisitPacket` reads the same-line right gap of the file's last token, whatever kind of definition it closes
+  ((match first with | some t => [t.idx] | none => []) ++ top.1,
+   top.2 ++ (match c.defs.getLast? with | some d => [d.stop.idx] | none => []))
 
 def info (s : String) : Info :=
   let ts := lex s
